@@ -215,6 +215,74 @@ def family_alias(rnd, tier):
     out.append(SC("alias-rootlink-rel-slash", t + [E("ln", "link", "real")], ["ln/"], "d", cls="alias"))
     return out
 
+def family_alias_random(rnd, count):
+    """C03: seeded random alias relations - a source entry of any kind, a destination that designates it (or the directory
+    holding it) through a random spelling (./, detours through .., absolute, a linked directory, a hard link, a symlink),
+    random spelling of the source too, random backup / no-clobber / -T options."""
+    out = []
+    kinds = {"dd": "dir", "dd/x": "file", "dd/e": "dir", "dd/e/y": "file", "dd/l": "link", "dd/p": "fifo", "dd/e/ll": "link"}
+    for i in range(count):
+        fs = tree("dd", {"x": "F1", "e": {"y": "F2", "z": "F3", "ll": ("link", "../x")}, "l": ("link", "x"), "p": ("fifo",)}) + [E("by", "file", "F6"), E("o", "dir"), E("o/k", "file", "F7")]
+        src = rnd.choice(sorted(kinds))
+        k = kinds[src]
+        rel = rnd.choice(["self", "parent", "parent", "sym", "hard"] if k == "file" else ["self", "parent", "parent", "sym"])
+        comps = src.split("/")
+        def spell(cs, allow_link=True):
+            """a random spelling of the path with components cs (all but the last are directories)"""
+            outc = []
+            for j, c in enumerate(cs):
+                r = rnd.random()
+                if r < 0.15 and j > 0:
+                    outc.append(".")
+                if r > 0.8 and j > 0 and j < len(cs):
+                    # detour: into a sibling directory and back (".." is resolved by the kernel after links)
+                    here = "/".join(cs[:j])
+                    sib = {"dd": "e"}.get(here)
+                    if sib:
+                        outc += [sib, ".."]
+                outc.append(c)
+            text = "/".join(outc)
+            r = rnd.random()
+            if r < 0.2:
+                text = "/ABS/" + text
+            elif r < 0.35:
+                text = "./" + text
+            elif r < 0.5 and allow_link and len(cs) >= 2:
+                # through a symbolic link to the first directory
+                name = "ld%d" % rnd.randint(0, 9)
+                if not any(e["p"] == [name] for e in fs):
+                    fs.append(E(name, "link", rnd.choice(["dd", "/dd", "./dd"])))
+                    text = name + "/" + "/".join(cs[1:])
+            return text
+        T = False
+        if rel == "self":
+            dest = spell(comps)
+            T = k == "dir" and rnd.random() < 0.6
+        elif rel == "parent":
+            dest = spell(comps[:-1]) if len(comps) > 1 else rnd.choice([".", "./", "dd/..", "/ABS"])
+            if len(comps) > 1 and rnd.random() < 0.4:
+                dest += "/"
+        elif rel == "sym":
+            fs.append(E("al", "link", rnd.choice([src, "/" + src, "./" + src])))
+            dest = rnd.choice(["al", "./al", "/ABS/al"])
+            T = k == "dir" and rnd.random() < 0.5
+        else:
+            h = E("hl", "file", "F1" if src == "dd/x" else "F2", h=1); h["hlof"] = comps
+            for e in fs:
+                if e["p"] == comps:
+                    e["h"] = 1
+            fs.append(h)
+            dest = rnd.choice(["hl", "./hl"])
+        extra = rnd.choice([[], [], ["--backup", "numbered"], ["--backup", "auto"], ["--no-clobber"], ["--fsync"], ["--no-perms"]])
+        sc = SC("ralias-%d-%s-%s" % (i, src.replace("/", "_"), rel), fs, [spell(comps, allow_link=False)], dest, r=(k == "dir") or rnd.random() < 0.5,
+                T=T, n="--no-clobber" in extra, extra=[x for x in extra if x != "--no-clobber"], cls="alias")
+        if rnd.random() < 0.3:
+            sc["sources"].append(A("o/k"))        # a second, unrelated source: the run has legitimate work too
+            if T:
+                sc["T"] = False
+        out.append(sc)
+    return out
+
 def family_noclobber(rnd, tier):
     """C08: pre-populated destination, colliding entries of every kind at various walk positions."""
     out = []
